@@ -39,7 +39,8 @@ REQUIRED = ["cases", "emitted_frames_compared", "rewrites_checked",
             "checksums_verified", "flood_all_cases", "suppressed_by_port_rule",
             "ingress_dropped", "counters_compared", "controller_outputs",
             "flow_hits", "packet_outs",
-            "frames_with_ports_only_inside_their_payload"]
+            "frames_with_ports_only_inside_their_payload", "table_misses",
+            "released_through_a_buffer_id", "released_by_a_flow_mod"]
 TIMEOUT = {"quick": 900, "thorough": 7200}
 
 NPORTS = 5
@@ -58,9 +59,10 @@ def hw (p):
 
 
 class Rig (object):
-  def __init__ (self):
-    self.sw = simnet.DirectSwitch(dpid=DPID, ports=NPORTS, max_buffers=0,
+  def __init__ (self, buffers=0):
+    self.sw = simnet.DirectSwitch(dpid=DPID, ports=NPORTS, max_buffers=buffers,
                                   miss_send_len=0xffff)
+    self.buffers = buffers
     self.cfg = {p: 0 for p in range(1, NPORTS + 1)}
     self.tx = {p: [0, 0] for p in self.cfg}
     self.rx_lo = {p: [0, 0] for p in self.cfg}
@@ -158,7 +160,7 @@ def expected_for (raw, actions, in_port, cfg, via, table_flow, stay):
   for spec, frame, max_len in steps:
     e = OA.expand(spec, in_port, cfg)
     if e == "controller":
-      pins.append((1, in_port, frame))
+      pins.append((1, in_port, frame, max_len))
     elif e == "table":
       if via != "packet_out": continue
       if in_port not in cfg: continue
@@ -171,7 +173,7 @@ def expected_for (raw, actions, in_port, cfg, via, table_flow, stay):
             outs += [(p, frame2) for p in e2]
       else:
         if not cfg[in_port] & OA.PC_NO_PACKET_IN:
-          pins.append((0, in_port, frame))
+          pins.append((0, in_port, frame, 0xffff))
     elif e == "none":
       pass
     else:
@@ -182,12 +184,16 @@ def expected_for (raw, actions, in_port, cfg, via, table_flow, stay):
   return outs, pins, rew, suppressed, reinj
 
 
+BUFFERED = ("buffered_miss", "buffered_action")
+
 def run_case (case, rep):
-  rig = _rig.get("r")
+  # (a switch with packet buffers for the deliveries that go through one)
+  rk = "rb" if case["via"] in BUFFERED else "r"
+  rig = _rig.get(rk)
   if rig is None:
-    rig = Rig(); _rig["r"] = rig
+    rig = Rig(64 if rk == "rb" else 0); _rig[rk] = rig
   def fire (key, what):
-    _rig.pop("r", None)        # model counters may be out of sync now
+    _rig.pop(rk, None)        # model counters may be out of sync now
     rep.violation("C12 " + key, what, case)
   raw = case["frame"]; actions = case["actions"]; in_port = case["in_port"]
   via = case["via"]
@@ -217,6 +223,70 @@ def run_case (case, rep):
         data=raw))
       sw.feed(blob)
       accepted = True
+    elif via in ("miss",) + BUFFERED:
+      # the frame arrives first: nothing matches it (or an entry hands it to
+      # the controller); with buffers it is then released through its buffer
+      # id with the action list, as a controller does after a packet-in
+      first_actions = [dict(type=0, port=OA.OFPP_CONTROLLER, max_len=0xffff)]
+      if via == "buffered_action":
+        sw.feed(ofwire.enc_message("flow_mod", dict(
+          xid=rig.nx(), match=ALLM, cookie=1, command=0, idle_timeout=0,
+          hard_timeout=0, priority=5, buffer_id=0xffffffff, out_port=0xffff,
+          flags=0, actions=first_actions)))
+        pre = sw.take_bytes()
+        if pre:
+          fire("flow_mod rejected", pre[:40].hex()); return True
+      accepted = OA.accepts(cfg[in_port], raw)
+      if case.get("inject_obj"):
+        # (the frame handed over as a parsed object only)
+        import pox.lib.packet as pkt
+        sw.switch.rx_packet(pkt.ethernet(raw), in_port)
+      else:
+        sw.inject(in_port, raw)
+      if accepted:
+        for r in (rig.rx_lo, rig.rx_hi):
+          r[in_port][0] += 1; r[in_port][1] += len(raw)
+      else:
+        rep.count("ingress_dropped")
+      first = ofwire.dec_stream(sw.take_bytes())
+      first_out = sw.take_out()
+      announced = accepted and (via == "buffered_action" or
+                                not cfg[in_port] & OA.PC_NO_PACKET_IN)
+      want = [(1 if via == "buffered_action" else 0, in_port, raw, len(raw))] \
+          if announced else []
+      got = [(m["reason"], m["in_port"], m["data"], m["total_len"]) for m in first
+             if m["name"] == "packet_in"]
+      if first_out or got != want or len(first) != len(got):
+        fire("frame that %s: packet-in differs" %
+             ("misses the table" if via != "buffered_action" else
+              "an entry sends to the controller"),
+             "observed %r (+%d frames on the data plane), expected %r" %
+             ([(m["name"], m.get("reason"), m.get("in_port"), len(m.get("data", b"")))
+               for m in first], len(first_out),
+              [(r, p, len(d)) for r, p, d, t in want]))
+        return True
+      rep.count("table_misses" if via != "buffered_action" else "controller_outputs")
+      if via == "miss" or not announced:
+        accepted = False        # nothing else is to come
+      else:
+        bid = first[0]["buffer_id"]
+        if bid == 0xffffffff:
+          # every buffer is taken (earlier lists left frames with the
+          # controller): start over with a fresh switch next time
+          rep.count("no_buffer_left")
+          _rig.pop(rk, None)
+          return None
+        rep.count("released_through_a_buffer_id")
+        if case.get("release") == "flow_mod":
+          rep.count("released_by_a_flow_mod")
+          sw.feed(ofwire.enc_message("flow_mod", dict(
+            xid=rig.nx(), match=dict(ALLM, wildcards=OM.FW_ALL & ~OM.FW_IN_PORT, in_port=77),
+            cookie=2, command=0, idle_timeout=0,
+            hard_timeout=0, priority=6, buffer_id=bid, out_port=0xffff,
+            flags=0, actions=actions)))
+        else:
+          sw.feed(ofwire.enc_message("packet_out", dict(
+            xid=rig.nx(), buffer_id=bid, in_port=in_port, actions=actions, data=b"")))
     else:
       sw.feed(ofwire.enc_message("flow_mod", dict(
         xid=rig.nx(), match=ALLM, cookie=1, command=0, idle_timeout=0,
@@ -242,8 +312,22 @@ def run_case (case, rep):
     msgs = ofwire.dec_stream(ctl)
   except ofwire.WireError as e:
     fire("switch emitted undecodable bytes", repr(e)); return True
-  pins_obs = [(m["reason"], m["in_port"], m["data"]) for m in msgs
-              if m["name"] == "packet_in"]
+  def seen (m, want):
+    """A packet-in as (reason, port, frame): with a buffer granted only the
+    first max_len bytes travel, the total length tells the rest."""
+    d = m["data"]
+    for (r, p, f, ml) in want:
+      if m["buffer_id"] != 0xffffffff and len(f) > ml and d == f[:ml] \
+         and m["total_len"] == len(f) and (r, p) == (m["reason"], m["in_port"]):
+        return (r, p, f)
+    return (m["reason"], m["in_port"], d)
+  want_pins = []
+  if accepted:
+    try: want_pins = expected_for(raw, actions, in_port, cfg,
+                                  "packet_out" if via in BUFFERED else via,
+                                  table_flow, True)[1]
+    except Exception: want_pins = []
+  pins_obs = [seen(m, want_pins) for m in msgs if m["name"] == "packet_in"]
   other = [m for m in msgs if m["name"] != "packet_in"]
   if other:
     fire("unexpected %s message [%s]" %
@@ -257,8 +341,10 @@ def run_case (case, rep):
     if not accepted:
       e_out, e_pin, rew, supp, reinj = [], [], False, False, 0
     else:
-      e_out, e_pin, rew, supp, reinj = expected_for(raw, actions, in_port, cfg,
-                                                   via, table_flow, stay)
+      e_out, e_pin, rew, supp, reinj = expected_for(
+        raw, actions, in_port, cfg, "packet_out" if via in BUFFERED else via,
+        table_flow, stay)
+      e_pin = [x[:3] for x in e_pin]
     last = (e_out, e_pin)
     if sorted(out) == sorted(e_out) and sorted(pins_obs) == sorted(e_pin):
       ok = True; break
@@ -384,7 +470,8 @@ def gen_action (rng, allow_table):
 
 
 def gen_case (rng):
-  via = rng.choice(["packet_out", "flow", "flow"])
+  via = rng.choice(["packet_out", "flow", "flow", "packet_out", "flow", "flow",
+                    "miss", "buffered_miss", "buffered_action"])
   kind = rng.choice(["tcp", "udp", "icmp", "arp_req", "other", "tcp_opts",
                      "ipother", "frag_later", "frag_first", "tcp", "udp",
                      "icmp_quote", "gre_ip", "llc", "snap0", "snapx", "snap_ip",
@@ -394,7 +481,7 @@ def gen_case (rng):
   raw, desc = framegen.gen_frame(rng, kind, pad=False, dst=dst,
                                  payload_len=rng.choice([0, 1, 2, 5, 18, 19,
                                                          100, 101]))
-  if via == "flow":
+  if via != "packet_out":
     in_port = rng.choice([1, 2])
   else:
     in_port = rng.choice([1, 2, 2, 0xffff])
@@ -414,6 +501,9 @@ def gen_case (rng):
                                                  OA.OFPP_ALL]), max_len=0))
   case = dict(frame=raw, in_port=in_port, actions=actions, cfg=cfg, via=via,
               desc=desc)
+  if via in ("miss",) + BUFFERED:
+    if rng.random() < 0.3: case["inject_obj"] = True
+    if via in BUFFERED and rng.random() < 0.3: case["release"] = "flow_mod"
   if allow_table and rng.random() < 0.5:
     case["table_flow"] = [dict(type=5, dl_addr=b"\x0a" * 6),
                           dict(type=0, port=3, max_len=0)]
